@@ -1,11 +1,12 @@
 (* C04 — Token supply conservation.  Statement of record (ledger model: 11 message kinds, slashes, deferred end-block actions). *)
 From Coq Require Import NArith List Bool.
-From V Require Import U64 Extracted Ledger LedgerCheck LedgerHistory.
-From V Require LedgerConservation LedgerStaking.
+From V Require Import U64 Extracted Ledger LedgerCheck LedgerHistory LedgerBlock.
+From V Require LedgerConservation LedgerStaking LedgerBlockProofs.
 Import ListNotations.
 Local Open Scope N_scope.
 Module LC := LedgerConservation.
 Module LS := LedgerStaking.
+Module LB := LedgerBlockProofs.
 
 (* Every state reachable by any history of transactions (applied, or failed and therefore without effect), slashes, the two
    deferred end-block actions and height changes satisfies: recorded total = accounts + pools + stakes, below 2^64 (no
@@ -57,3 +58,43 @@ Example C04_nonvacuous :
   exists s', lrun ex_ops ex_state = LOk s' /\ conservation_ok s' = true /\ staking_ok s' = true /\
              aget 30 (l_vals s') = None /\ aget 9 (l_orders s') = None.
 Proof. exact history_nonvacuous. Qed.
+
+(* ---- whole blocks: the two block-level actions that create and destroy tokens (model/LedgerBlock.v).
+   BeginBlock mint (FundCommitteeRewardPools): the invariant is kept, nothing is destroyed, and never more than the amount
+   scheduled for the block is created (the DAO cut plus the per-committee amounts; truncation is simply not minted). *)
+Theorem C04_mint_bounded : forall total dao_pct chains s s',
+  LInv s -> LB.chains_ok chains -> LC.total s + total < two64 -> dao_pct < two64 ->
+  fund_pools total dao_pct chains s = LOk s' ->
+  LInv s' /\ LC.total s <= LC.total s' /\ LC.total s' <= LC.total s + total.
+Proof. exact LB.fund_invariant. Qed.
+Print Assumptions C04_mint_bounded.
+Theorem C04_mint_split_bounded : forall total dao_pct count, total < two64 -> dao_pct < two64 -> 0 < count ->
+  fst (mint_split total dao_pct count) + count * snd (mint_split total dao_pct count) <= total.
+Proof. exact LB.mint_split_bounded. Qed.
+(* EndBlock reward distribution of a committee (DistributeCommitteeRewards): credits to accounts, to compounding stakes and to
+   output accounts come out of the committee's pool; what is not paid (rounding, early-withdrawal penalty) is burned from the
+   recorded total; nothing is created; the pool ends empty. *)
+Theorem C04_rewards_conserve : forall chain stubs samples penalty s s',
+  LInv s -> LS.heights_ok s -> stubs_ok stubs samples -> penalty < two64 -> chain <= MaxChainId ->
+  distribute_committee chain stubs samples penalty s = LOk s' -> LInv s'.
+Proof. exact LB.distribute_invariant. Qed.
+Print Assumptions C04_rewards_conserve.
+Theorem C04_rewards_burn_the_rest : forall chain stubs samples penalty s s',
+  LInv s -> LS.heights_ok s -> stubs_ok stubs samples -> penalty < two64 -> chain <= MaxChainId ->
+  distribute_committee chain stubs samples penalty s = LOk s' ->
+  LC.total s' <= LC.total s /\ LC.total s - LC.total s' <= nget chain (l_pools s) /\
+  (stubs <> [] -> nget chain (l_pools s') = 0).
+Proof. exact LB.distribute_burns. Qed.
+(* every state reachable by histories of transactions, slashes, deferred actions, height changes, mints and reward
+   distributions satisfies the invariant (conservation included) *)
+Theorem C04_conserved_on_every_reachable_state_of_whole_blocks : forall ops s s',
+  LInv s -> LB.bhist_ok ops s -> LB.brun ops s = LOk s' -> LInv s'.
+Proof. exact LB.block_history_invariant. Qed.
+Print Assumptions C04_conserved_on_every_reachable_state_of_whole_blocks.
+Theorem C04_whole_blocks_predicates : forall ops s s', LInv s -> LB.pools_nz s -> LB.bhist_ok ops s -> LB.brun ops s = LOk s' ->
+  conservation_ok s' = true /\ staking_ok s' = true /\ escrow_ok s' = true.
+Proof. exact LB.block_history_predicates. Qed.
+Example C04_whole_blocks_nonvacuous : exists s ops s',
+  LInv s /\ LB.bhist_ok ops s /\ LB.brun ops s = LOk s' /\ LC.total s' < LC.total s + 1000 /\ LC.total s < LC.total s' /\
+  conservation_ok s' = true.
+Proof. exact LB.block_history_nonvacuous. Qed.
